@@ -285,13 +285,13 @@ fn judge_adaptors<'a>(b: &'a [u8], w: &[u64], t: &mut Tape, v: &mut Verdict) {
                 pos = (pos + 1).min(w.len());
             }
             1 | 5 => {
-                let k = t.choose(4);
+                let k = [0usize, 1, 2, 3, usize::MAX, 1 << 61][t.choose(6)];
                 let got = if op == 1 { it.nth(k) } else { it.by_ref().skip(k).next() }.map(|r| render(&r));
-                if got != w.get(pos + k).copied() {
+                if got != pos.checked_add(k).and_then(|i| w.get(i)).copied() {
                     v.violation = bad(format!("op {step}: {}({k}) at position {pos} of {} differs from the reference sequence", if op == 1 { "nth" } else { "skip(k).next" }, w.len()));
                     return;
                 }
-                pos = (pos + k + 1).min(w.len());
+                pos = pos.saturating_add(k).saturating_add(1).min(w.len());
             }
             2 => {
                 let _ = it.size_hint();
